@@ -199,6 +199,25 @@ func (g *ownGen) expr(e *genv, t gty, d int) (string, int) {
 		}
 		return g.literal(t, e, d)
 	case tW:
+		if r.Chance(0.12) {
+			// comparisons that are only "obviously true" if arithmetic cannot overflow
+			edge := prng.Pick(r, []string{"9223372036854775807", "-9223372036854775807", "9223372036854775806", "4611686018427387904"})
+			a := edge
+			if vs := e.ofType(tZ, false); len(vs) > 0 && r.Chance(0.3) {
+				a = prng.Pick(r, vs).name
+			}
+			g.roles["Zahl: comparison at the edge of the range"] = true
+			switch r.Intn(4) {
+			case 0:
+				return fmt.Sprintf("(%s einen Nachfolger hat)", a), 0
+			case 1:
+				return fmt.Sprintf("(%s über %s liegt)", a, prng.Pick(r, []string{"-1", "-2", "1", edge})), 0
+			case 2:
+				return fmt.Sprintf("((%s plus %d) größer als %s ist)", a, r.Range(1, 3), a), 0
+			default:
+				return fmt.Sprintf("((%s mal 2) größer als %s ist)", a, a), 0
+			}
+		}
 		switch r.Intn(5) {
 		case 4:
 			// a Text compared with a fresh copy of itself (equal length, possibly different capacity)
@@ -688,6 +707,20 @@ func (g *ownGen) stmt(e *genv, ind int) {
 	if g.inFunc == nil {
 		nested = ind
 	}
+	if r.Chance(0.06) {
+		// a generic function with two type parameters, instantiated with the same two types in both orders
+		ts := []gty{tZ, tT, tZL, tTL}
+		p := r.Perm(len(ts))
+		ta, tb := ts[p[0]], ts[p[1]]
+		a1, _ := g.expr(e, ta, 1)
+		b1, _ := g.expr(e, tb, 1)
+		a2, _ := g.expr(e, ta, 1)
+		b2, _ := g.expr(e, tb, 1)
+		g.line(ind, fmt.Sprintf("zeige %s und dann %s.", a1, b1))
+		g.line(ind, fmt.Sprintf("zeige %s und dann %s.", b2, a2))
+		g.roles["generic function with two type parameters instantiated in both orders"] = true
+		return
+	}
 	switch k := r.Intn(17); {
 	case k <= 2: // declaration of a non-primitive variable
 		t := prng.Pick(r, heapTypes)
@@ -1060,6 +1093,24 @@ Die generische Funktion nur_lang mit den Parametern gl und gz vom Typ T Liste un
 	Gib (die Länge von gl) plus gz zurück.
 Und kann so benutzt werden:
 	"die Länge von <gl> und <gz>"
+
+[ two type parameters: instantiated with the same types in both orders ]
+Die generische Funktion zeige_beide mit den Parametern ga und gb vom Typ T und R, gibt nichts zurück, macht:
+	Schreibe ga auf eine Zeile.
+	Schreibe gb auf eine Zeile.
+Und kann so benutzt werden:
+	"zeige <ga> und dann <gb>"
+
+[ arithmetic at the edge of the range of Zahl wraps around, at every optimisation level ]
+Die Funktion hat_nachfolger mit dem Parameter gn vom Typ Zahl, gibt einen Wahrheitswert zurück, macht:
+	Gib gn plus 1 größer als gn ist zurück.
+Und kann so benutzt werden:
+	"<gn> einen Nachfolger hat"
+
+Die Funktion liegt_ueber mit den Parametern gx und gy vom Typ Zahl und Zahl, gibt einen Wahrheitswert zurück, macht:
+	Gib gx minus gy größer als 0 ist zurück.
+Und kann so benutzt werden:
+	"<gx> über <gy> liegt"
 
 `
 
